@@ -154,6 +154,18 @@ func vInject(ifi *config.Interface, sys *model.Sys, now func() time.Time) {
 		}
 		return out, nil
 	}
+	// Every plugin is prepared with the interface as the daemon does on each
+	// (re)initialisation - whatever Prepare records about the interface is then
+	// in place - and only then are the system sources replaced by the scripted ones.
+	pni := &net.Interface{Index: 1, Name: ifi.Name}
+	if sys.MAC != nil {
+		pni.HardwareAddr = net.HardwareAddr(append([]byte(nil), sys.MAC...))
+	}
+	for _, p := range ifi.Plugins {
+		if err := p.Prepare(pni); err != nil {
+			panic("verif: " + p.Name() + ".Prepare failed: " + err.Error())
+		}
+	}
 	for _, p := range ifi.Plugins {
 		switch p := p.(type) {
 		case *plugin.Prefix:
